@@ -135,3 +135,31 @@ func Refs(v reflect.Value, path string, out *[]Ref, depth int) {
 		}
 	}
 }
+
+// Scratch is a writable anonymous mapping used as a re-usable input buffer;
+// after Free any string that still points into it faults when read.
+type Scratch struct{ Mem []byte }
+
+// NewScratch maps size bytes read-write
+func NewScratch(size int) (*Scratch, error) {
+	size = (size + pageSize - 1) / pageSize * pageSize
+	mem, err := syscall.Mmap(-1, 0, size, syscall.PROT_READ|syscall.PROT_WRITE, syscall.MAP_ANON|syscall.MAP_PRIVATE)
+	if err != nil {
+		return nil, err
+	}
+	return &Scratch{Mem: mem}, nil
+}
+
+// Range is the address range of the mapping
+func (s *Scratch) Range() (lo, hi uintptr) {
+	lo = uintptr(unsafe.Pointer(&s.Mem[0]))
+	return lo, lo + uintptr(len(s.Mem))
+}
+
+// Free unmaps it
+func (s *Scratch) Free() {
+	if s.Mem != nil {
+		syscall.Munmap(s.Mem)
+		s.Mem = nil
+	}
+}
